@@ -110,8 +110,35 @@ func c21Runes(r *rand.Rand, class string, crafted bool) []rune {
 	return out
 }
 
-// c21Wrong returns a BMP-encodable password different from pw.
+// kdfSamePassword reports whether two passwords are indistinguishable to the
+// RFC 7292 B.2 KDF: it sees only P = the formatted password repeated to a
+// multiple of 64 octets, so e.g. "" (0000) and "\x00" (0000 0000) coincide.
+// Such a pair is not a "wrong password".
+func kdfSamePassword(a, b []rune) bool {
+	ext := func(p []rune) []byte {
+		o := bmpOf(p)
+		n := 64 * ((len(o) + 63) / 64)
+		out := make([]byte, n)
+		for i := range out {
+			out[i] = o[i%len(o)]
+		}
+		return out
+	}
+	return bytes.Equal(ext(a), ext(b))
+}
+
+// c21Wrong returns a BMP-encodable password that differs from pw (also after
+// the KDF's cyclic extension).
 func c21Wrong(r *rand.Rand, pw []rune) (string, string) {
+	w, how := c21WrongRaw(r, pw)
+	if kdfSamePassword([]rune(w), pw) {
+		m := append(append([]rune{}, pw...), 'x')
+		return string(m), "append"
+	}
+	return w, how
+}
+
+func c21WrongRaw(r *rand.Rand, pw []rune) (string, string) {
 	if len(pw) == 0 {
 		return mon.Pick(r, []string{"a", " ", "0", "é"}), "nonempty-for-empty"
 	}
